@@ -1,5 +1,41 @@
-Require Import V.Lib.Base V.Lib.Calls V.C01.Read V.C01.Write.
+(* C01 - aspif writer and reader are inverses.  Statements only; proofs in C01/ProofsRoundtrip.v (which builds on
+   C03/ProofsProg.v: the writer's text is the canonical rendering of the program). *)
+Require Import V.Lib.Base V.Lib.Calls V.C01.Read V.C01.Write V.C01.Wf V.C01.ProofsRoundtrip.
 Local Open Scope Z_scope.
-Example c01_smoke : read_all (write_prog [CInit false; CBegin; CEnd]) = ([CInit false; CBegin; CEnd], Ok).
-Proof. vm_compute. reflexivity. Qed.
-Print Assumptions c01_smoke.
+
+(* Every program inside the documented ranges (any number of steps and directives, every directive kind incl. theory,
+   empty lists, ids up to 2^32-1, strings of arbitrary bytes incl. blanks, newlines, digits) is read back as itself,
+   except that weight-0 literals are dropped from weighted bodies and minimize statements.  No size bound. *)
+Theorem c01_roundtrip : forall p, wf_trace p -> (forall c, In c p -> wf_call c = true) ->
+  read_all (write_prog p) = (norm p, Ok).
+Proof. intros p Ht Hc. apply c01_roundtrip_lemma; [exact Ht | apply forallb_forall; exact Hc]. Qed.
+Print Assumptions c01_roundtrip.
+
+(* step-by-step reading (parse(Incremental) while more()) and reading in one go give the same calls and the same error, for EVERY text *)
+Theorem c01_modes : forall t, read_incr t = read_all t.
+Proof. exact c01_modes_lemma. Qed.
+Print Assumptions c01_modes.
+
+Theorem c01_roundtrip_incremental : forall p, wf_trace p -> (forall c, In c p -> wf_call c = true) ->
+  read_incr (write_prog p) = (norm p, Ok).
+Proof. intros. rewrite c01_modes. apply c01_roundtrip; assumption. Qed.
+Print Assumptions c01_roundtrip_incremental.
+
+(* non-vacuity: a two-step program with every directive kind, boundary values, a weight-0 literal, an id >= 2^31 *)
+Definition sample : list call :=
+  flatten true [[CRule 1 [1; 2147483647] [-2147483647; 3]; CWRule 0 [] (-2147483648) [(1, 0); (2, 2147483647)];
+                 CMin (-1) [(5, -2147483648); (6, 0)]; CProject []; COutput [97; 32; 10; 48; 13] [1]; CExternal 7 3;
+                 CAssume [-1]; CHeuristic 2147483647 5 (-7) 2147483647 []; CEdge 0 2147483647 [2];
+                 CTNum 4294967295 (-3); CTSym 2147483648 []; CTComp 0 (-3) [4294967295; 0]; CTElem 1 [] [1];
+                 CTAtom 0 4000000000 [1]; CTAtomG 9 1 [] 4294967295 2147483648];
+                []].
+Example sample_wf : wf_trace sample /\ (forall c, In c sample -> wf_call c = true).
+Proof.
+  split.
+  - eexists; eexists. split; [reflexivity | vm_compute; reflexivity].
+  - apply forallb_forall. vm_compute. reflexivity.
+Qed.
+Example sample_norm_differs : norm sample <> sample.
+Proof. vm_compute. discriminate. Qed.
+Example sample_roundtrip : read_all (write_prog sample) = (norm sample, Ok).
+Proof. apply c01_roundtrip; apply sample_wf. Qed.
